@@ -1650,7 +1650,14 @@ class zip(Stream):
             self._release_refs(md)
             return ret
         elif len(L) > self.maxsize:
-            return self.condition.wait()
+            return self._wait_for_room(L)
+
+    @gen.coroutine
+    def _wait_for_room(self, L):
+        # notify_all() wakes every blocked producer; each one re-checks, so that
+        # no more than maxsize elements of one input are ever accepted
+        while len(L) > self.maxsize:
+            yield self.condition.wait()
 
 
 @Stream.register_api()
